@@ -113,9 +113,11 @@ def check_read_record(ck, rec, kinds=("str", "list")):
                     if st < n:
                         ck.expect(f"find_last({L}, {P}, start={st})", ("val", g), "find_last-start")
             else:
-                for st in range(0, n):
-                    g = rec["find"][pi][st][1]
-                    ck.expect(f"find_last({L}, {P}, start={st})", ("val", g), "find_last-start")
+                for st in range(0, n + 1):
+                    f, g = rec["find"][pi][st]
+                    ck.expect(f"find({L}, {P}, start={st})", ("val", f), "find-start")
+                    if st < n:
+                        ck.expect(f"find_last({L}, {P}, start={st})", ("val", g), "find_last-start")
 
 
 def check_edge(ck, e):
@@ -216,7 +218,7 @@ def record_traces(run, rng, ntraces, maxlen, maxidx, ksym):
                 P = val(t[0]) if kind == "list" else lit("str", t)
                 nn = len(read_obj())
                 if op == "find":
-                    if kind == "str" and rng.random() < 0.5:
+                    if rng.random() < 0.5:
                         st = rng.randint(0, nn)
                         src = f"find(o, {P}, start={st})"
                     else:
@@ -342,7 +344,6 @@ def run(run):
     run.assumptions += [
         "strings are checked over the symbols a..e standing for the model's 1..5",
         "find/find_last with an empty part are not compared (the property does not define them)",
-        "find(list, x, start=..) is not compared: the property does not define start for lists",
     ]
 
 
